@@ -9,9 +9,9 @@ FILES = ["Base/Re.v", "Base/Grammar.v", "Model/ForecastM.v", "Model/SliceM.v", "
 HEADER = ("From Coq Require Import List String NArith Bool Arith.\n"
           "From FV Require Import Base.Re Base.Grammar Model.ForecastM Model.SliceM Model.C19Case.\n"
           "Import ListNotations.\nOpen Scope string_scope.\nOpen Scope list_scope.\n")
-CT = "(list (string * rhs) * option (list string) * list msg * list msg * bool)"
-RT = "(list (string * rhs) * list string)"
-PT = "(list (string * rhs) * option (list string) * list msg * list msg * bool * list (msg * msg))"
+CT = "(list (string * rhs) * option (bool * list string) * list msg * list msg * bool)"
+RT = "(list (string * rhs) * (bool * list string))"
+PT = "(list (string * rhs) * option (bool * list string) * list msg * list msg * bool * list (msg * msg))"
 KNOWN_NULL = ("empty-deriving-nonterminal-not-completed: the forecaster re-parses the history with the Earley parser, which does not complete an empty-deriving "
               "nonterminal in every case (C05 nullable-reprediction): with such a control nonterminal (or the implicit symbol of a `*`, `?`, `{0,n}` repetition) a full interaction is not reported complete, or continuations "
               "after the empty derivation are not offered")
@@ -53,7 +53,7 @@ def obligations(res):
         "derivative-based forecast is exact for every expression and every history.  The forecaster itself (StateGrammarConverter, prefix-mode "
         "re-parsing, ContinuingNodeVisitor) is NOT modelled: PacketForecaster.predict of the real code is run on every history reached and its answer "
         "compared in Coq with the forecast of the exported grammar",
-        "Slicing: Model/SliceM.v models slice_parties(ignore_receivers=True) on the exported UNSLICED rules; theorems: only kept parties' messages remain, "
+        "Slicing: Model/SliceM.v models slice_parties (both modes: ignore_receivers=True / False, vis_mode) on the exported UNSLICED rules; theorems: only kept parties' messages remain, "
         "only other parties' messages are removed, every sliced interaction is the visible part of a full interaction (given that no sequence member is "
         "infeasible).  The tie: the real forecaster on the really sliced grammar must agree with the forecast of the model's slice",
         "non-recursive protocol grammars only (recursion through non-message nonterminals makes the model give up: code 5, counted); open-ended repetitions "
@@ -61,7 +61,7 @@ def obligations(res):
         "completeness is not judged for the empty history (predict() takes a shortcut there and never reports a complete tree); slicing: 30% of the "
         "generated grammars are sliced to a subset of parties with the real slice_parties(ignore_receivers=True) first; the model slices the exported "
         "UNSLICED rules itself (Model/SliceM.v, a model of PacketTruncator + the rule-deletion rounds) and the real forecasts on the really sliced grammar "
-        "must be exact for the model's sliced expression (slicing with ignore_receivers=False is not exercised)",
+        "must be exact for the model's sliced expression; both modes of slice_parties are exercised (ignore_receivers=True as --party does, False as truncate_invisible_packets does before a protocol run)",
         "histories are built the way the search does it: the option's mounting path is taken and the message node fuzzed into the collapsed history tree",
     ]
 
@@ -139,6 +139,18 @@ FIXED_SLICED = [
     ("<start> ::= <a>\n<a> ::= <Extern:Fuzzer:m1> | <Third:Fuzzer:m3>\n" + MS + PARTIES, ["<start>", "<a>"], {"Fuzzer"}),
 ]
 
+# the same with ignore_receivers=False (forced = (parties, True)): a message stays when its sender OR its recipient is kept, or when it has no recipient
+FIXED_SLICED_IO = [
+    ("<start> ::= <Fuzzer:Extern:m0> (<Extern:Third:m1> | <Third:Extern:m3> | <Fuzzer:Extern:m2> | <Extern:m5> | <Third:Extern:m1>) <Fuzzer:Third:m2>\n" + MS + PARTIES,
+     ["<start>"], ({"Fuzzer"}, True)),
+    ("<start> ::= <Fuzzer:Extern:m0> <c> <Fuzzer:Third:m2>?\n<c> ::= <d> | <e> | <Third:Fuzzer:m3> | <Fuzzer:Extern:m2>\n<d> ::= <Extern:Fuzzer:m1>+\n"
+     "<e> ::= <Extern:Third:m5> <Extern:Fuzzer:m1>\n" + MS + PARTIES, ["<start>", "<c>", "<d>", "<e>"], ({"Fuzzer"}, True)),
+    ("<start> ::= (<Extern:Third:m1> <Third:Extern:m3> <Fuzzer:Extern:m0> <Extern:m5> <Third:Extern:m3>){1,2} <k>*\n<k> ::= <Third:Extern:m3> | <Extern:Third:m1>\n"
+     + MS + PARTIES, ["<start>", "<k>"], ({"Fuzzer"}, True)),
+    ("<start> ::= <a> <Fuzzer:Extern:m0>\n<a> ::= <b> | <b> <b>\n<b> ::= <Extern:Third:m1> | <Third:Extern:m3>\n" + MS + PARTIES, ["<start>", "<a>", "<b>"], ({"Fuzzer"}, True)),
+    ("<start> ::= <a>\n<a> ::= <Extern:Fuzzer:m1> | <Third:Fuzzer:m3>\n" + MS + PARTIES, ["<start>", "<a>"], ({"Third"}, True)),
+]
+
 
 def option_names(pred):
     out = set()
@@ -194,10 +206,13 @@ def gen_worker(args):
     res = c07.MiniRes()
     rng = random.Random(seed * 353 + 29)
     terms, infos = [], []
-    specs = [(s_, n_, None) for s_, n_ in FIXED] if seed % 1000 == 0 else (list(FIXED_SLICED) if seed % 1000 == 1 else [])
+    specs = [(s_, n_, None) for s_, n_ in FIXED] if seed % 1000 == 0 else (list(FIXED_SLICED) if seed % 1000 == 1 else (list(FIXED_SLICED_IO) if seed % 1000 == 2 else []))
     while len(specs) < n:
         specs.append(gen_protocol(rng) + (None,))
     for spec, names, forced in specs:
+        forced_io = False
+        if isinstance(forced, tuple):
+            forced, forced_io = forced
         try:
             fan = Fandango(spec, use_stdlib=False, use_cache=False)
             g = fan.grammar
@@ -207,13 +222,17 @@ def gen_worker(args):
                 # the spec sliced to a subset of parties (as `fandango ... --party` does)
                 from fandango.language.parse.slice_parties import slice_parties
                 sliced = forced or rng.choice([{"Fuzzer"}, {"Extern"}, {"Fuzzer", "Third"}, {"Extern", "Third"}, {"Third"}])
-                slice_parties(g, set(sliced), ignore_receivers=True)
+                # both modes: ignore_receivers=True (--party / parties=[...]) and False (truncate_invisible_packets before a protocol run)
+                ignore_rcv = not (forced_io if forced else rng.random() < 0.4)
+                slice_parties(g, set(sliced), ignore_receivers=ignore_rcv)
+                res.bump("sliced_ignore_receivers_%s" % ignore_rcv)
+                sliced = (ignore_rcv, sorted(sliced))
                 from fandango.language.symbols import NonTerminal as _NT
                 res.bump("sliced_grammar")
                 if _NT("<start>") not in g.rules:
                     res.bump("sliced_away_start")
-                    terms.append(("removed", rx.term(), sorted(sliced)))
-                    infos.append({"spec": spec.split("class Fuzzer")[0], "sliced_to": sorted(sliced), "history": None, "start_sliced_away": True})
+                    terms.append(("removed", rx.term(), sliced))
+                    infos.append({"spec": spec.split("class Fuzzer")[0], "sliced_to": list(sliced[1]), "ignore_receivers": sliced[0], "history": None, "start_sliced_away": True})
                     continue
             fc = PacketForecaster(g)
             import earley
@@ -240,11 +259,11 @@ def gen_worker(args):
             continue
         for hist, opts, complete in records:
             judged_complete = complete if hist else None
-            terms.append((rx.term(), sorted(sliced) if sliced else None, hist, opts, complete))
-            infos.append({"spec": spec.split("class Fuzzer")[0], "sliced_to": sorted(sliced) if sliced else None, "history": hist, "offered": opts,
+            terms.append((rx.term(), sliced, hist, opts, complete))
+            infos.append({"spec": spec.split("class Fuzzer")[0], "sliced_to": list(sliced[1]) if sliced else None, "ignore_receivers": sliced[0] if sliced else None, "history": hist, "offered": opts,
                           "reported_complete": complete, "nullable_control_nonterminals": nullable_control,
                           "empty_deriving_repetition_symbols": len(nullable_implicit)})
-            res.count(("forecast", spec, tuple(sorted(sliced)) if sliced else None, tuple(hist)), nontrivial=len(hist) >= 1)
+            res.count(("forecast", spec, (sliced[0], tuple(sliced[1])) if sliced else None, tuple(hist)), nontrivial=len(hist) >= 1)
             res.bump("history_len_%d" % len(hist))
     if infos:
         res.sample(infos[min(len(infos) - 1, 3)])
@@ -260,11 +279,14 @@ def correspondence(res):
     removed = [(t, inf) for t, inf in zip(terms, infos) if t is not None and t[0] == "removed"]
     pairs = [(t, inf) for t, inf in zip(terms, infos) if t is not None and t[0] != "removed"]
 
+    def mode_term(keep):
+        return f"({coq_bool(keep[0])}, {coq_list([coq_string(k) for k in keep[1]])})"
+
     def keep_term(keep):
-        return coq_opt(None if keep is None else coq_list([coq_string(k) for k in keep]))
+        return coq_opt(None if keep is None else mode_term(keep))
     # <start> sliced away by the implementation: the slicing model must slice it away, too
     if removed:
-        rcodes = common.run_case_codes("C19", "removed", HEADER, [f"({t[1]}, {coq_list([coq_string(k) for k in t[2]])})" for t, _ in removed], "c19_removed", chunk=60, ctype=RT)
+        rcodes = common.run_case_codes("C19", "removed", HEADER, [f"({t[1]}, {mode_term(t[2])})" for t, _ in removed], "c19_removed", chunk=60, ctype=RT)
         for code, (t, inf) in zip(rcodes, removed):
             if code is None:
                 raise Broken("evaluation failed (case file)", repr(inf)[:500])
@@ -326,7 +348,7 @@ def correspondence(res):
             res.bump("known_merged_recipients")
             continue
         if len(res.violations) < 3:
-            what = ("the options offered after a history differ from the messages that can follow it in the grammar" + (" sliced to %s" % keep if keep else "") if code in (0, 3) else
+            what = ("the options offered after a history differ from the messages that can follow it in the grammar" + (" sliced to %s (ignore_receivers=%s)" % (keep[1], keep[0]) if keep else "") if code in (0, 3) else
                     "the history is reported complete although it is not a full interaction (or vice versa)")
             res.violation(what, inf)
     res.coverage["traces_validated_against_impl"] = ok
